@@ -13,7 +13,7 @@ from ..evidence import Run, canon_hash
 PID = "C14"
 SHARDS = {"quick": 6, "thorough": 16}
 SHARD_TIMEOUT = {"quick": 600, "thorough": 1700}
-N_RANDOM = {"quick": 900, "thorough": 40000}
+N_RANDOM = {"quick": 900, "thorough": 24000}
 
 
 def new_run():
@@ -35,7 +35,12 @@ def new_run():
          "dtype / representation with equal values is counted as undecided, "
          "the statement only speaks about values",
          "duplicate column labels and MultiIndex columns are not generated "
-         "(a DataFrameSchema cannot express them)",
+         "(a DataFrameSchema cannot express them); object columns of "
+         "Decimal / datetime.time / bytes / Period values are not generated "
+         "(outside the column kinds the statement lists)",
+         "tightness is judged only for bounds that infer_schema produced "
+         "and only for integer / float / Timestamp data (bool, timedelta, "
+         "complex have no inferred or no ordered bound: counted, not judged)",
          "SeriesSchema has no YAML writer: the serialisation clause is "
          "evaluated for DataFrames only",
          "a failing frame is re-run one component at a time (each column "
@@ -311,6 +316,18 @@ def _flags_of(where, spec, obj):
             named = [n for n in names if n is not None]
             if len(set(named)) != len(named):
                 fl.add("repeated-level-names")
+                # the same index with the level names made distinct: which
+                # stages fail there as well (those are not due to the names)
+                try:
+                    v = json.loads(json.dumps(spec))
+                    for j, lv in enumerate(v["index"]["levels"]):
+                        lv["name"] = "lvl%d" % j
+                    pv = probe(G.build_obj(v))
+                    fl.add("distinct-names-variant-probed")
+                    for st in pv.stages():
+                        fl.add("distinct-names-variant-fails:" + st)
+                except Exception:
+                    pass
             if any(n is None for n in names):
                 fl.add("unnamed-level")
         return sorted(fl)
@@ -431,7 +448,7 @@ def run(run, ctx):
 def finalize(run, ctx):
     q = ctx.tier == "quick"
     for name, m in K.FLOORS_QUICK.items():
-        run.floors[name] = m if q else m * 10
+        run.floors[name] = m if q else m * 20
 
 
 def replay(path):
